@@ -16,8 +16,11 @@ TOOL = 4
 
 
 class Scheduler:
-    def __init__(self, pkg_dir: str, granularity: str = "line", grace: float = 0.005):
+    def __init__(self, pkg_dir: str, granularity: str = "line", grace: float = 0.005, extra_roots=()):
         self.pkg = os.path.realpath(pkg_dir) + os.sep
+        # code of third-party packages the library calls into can be made part of the stepped code as well (their
+        # loops then offer preemption points; used for first-use trials around lazily loaded third-party data)
+        self.roots = (self.pkg,) + tuple(os.path.realpath(r) + os.sep for r in extra_roots)
         self.gran = granularity
         self.grace = grace
         self.cv = threading.Condition()
@@ -58,7 +61,7 @@ class Scheduler:
         fn = code.co_filename
         r = self._files.get(fn)
         if r is None:
-            r = os.path.realpath(fn).startswith(self.pkg)
+            r = os.path.realpath(fn).startswith(self.roots)
             self._files[fn] = r
         return r
 
